@@ -175,3 +175,69 @@ def _jr_check(case):
 
 
 CHECKS["JsonRandom.random"] = (json_random_cases, _jr_check)
+
+
+# ----------------------------------------------------------------------------- registries (C18): every sequence of registrations over a small universe
+def registry_cases():
+    ids = [0, 1]; names = ["a", "b"]; groups = [None, "g"]
+    ents = [(i, n, g) for i in ids for n in names for g in groups]
+    for kind in ("market", "agent", "session"):
+        for r in (1, 2, 3):
+            for seq in itertools.product(range(len(ents)), repeat=r):
+                if r == 3 and seq[0] > seq[1]:
+                    continue
+                yield {"kind": kind, "seq": [list(ents[j]) for j in seq], "same_object": [j for j in range(r) if seq.index(seq[j]) != j and ents[seq[j]][2] is None]}
+
+
+def check_registry(case):
+    from pams.agents import Agent, HighFrequencyAgent
+    from pams.logs import Logger
+    from pams.market import Market
+    from pams.simulator import Simulator
+    sim = Simulator(prng=random.Random(0))
+    kind = case["kind"]; made = []; ok_ids = set(); ok_names = set(); objs = []
+
+    class A(Agent):
+        def submit_orders(self, markets):
+            return []
+
+    for pos, (i, n, g) in enumerate(case["seq"]):
+        if pos in case["same_object"]:
+            x = made[[tuple(e) for e in case["seq"]].index((i, n, g))]
+        elif kind == "market":
+            x = Market(market_id=i, prng=random.Random(1), simulator=sim, name=n, logger=None)
+        elif kind == "agent":
+            x = A(agent_id=i, prng=random.Random(1), simulator=sim, name=n, logger=None)
+        else:
+            x = Session(session_id=i, prng=random.Random(1), session_start_time=0, simulator=sim, name=n, logger=None)
+        made.append(x)
+        dup = any(x is o for o in objs) or i in ok_ids or n in ok_names
+        try:
+            if kind == "market":
+                sim._add_market(x, group_name=g)
+            elif kind == "agent":
+                sim._add_agent(x, group_name=g)
+            else:
+                sim._add_session(x)
+            raised = False
+        except ValueError:
+            raised = True
+        if dup != raised:
+            return f"registration {pos} of {kind} (id {i}, name {n}): duplicate = {dup}, ValueError = {raised}"
+        if not raised:
+            objs.append(x); ok_ids.add(i); ok_names.add(n)
+        lst, by_id, by_name, cnt = {"market": (sim.markets, sim.id2market, sim.name2market, sim.n_markets), "agent": (sim.agents, sim.id2agent, sim.name2agent, sim.n_agents),
+                                    "session": (sim.sessions, sim.id2session, sim.name2session, sim.n_sessions)}[kind]
+        if len(lst) != len(objs) or any(a is not b for a, b in zip(lst, objs)) or cnt != len(objs):
+            return f"registry list of {kind}s is not the accepted registrations in order after registration {pos}"
+        if set(by_id) != ok_ids or set(by_name) != ok_names or any(by_id[_id(o, kind)] is not o or by_name[o.name] is not o for o in objs):
+            return f"id / name lookup of {kind}s disagrees with the registry list after registration {pos}"
+    return None
+
+
+def _id(o, kind):
+    return getattr(o, kind + "_id")
+
+
+for _f in ("Simulator._add_market", "Simulator._add_agent", "Simulator._add_session"):
+    CHECKS[_f] = ((lambda k: (lambda: (c for c in registry_cases() if c["kind"] == k)))(_f.rsplit("_", 1)[1]), check_registry)
